@@ -79,7 +79,11 @@ func e5Alphabet(fx *Fixture, work string, rep *Report, prop string, thorough boo
 			}
 		}
 		before := snapshotTree(sb.root)
-		r := fx.cli(sb.pkg, c.StdoutFull, nil, c.argv(outArg)...)
+		dir := sb.pkg
+		if c.OutMode == "from-root" {
+			dir = sb.root
+		}
+		r := fx.cli(dir, c.StdoutFull, nil, c.argv(outArg)...)
 		after := snapshotTree(sb.root)
 		atomic.AddInt64(&runs, 1)
 		if r.Exit != 0 {
@@ -251,17 +255,33 @@ func e5Library(fx *Fixture, work string, rep *Report) {
 	base := func(args ...string) GenReq {
 		return GenReq{Dir: filepath.Join(fx.Root, sp.Dir), Cwd: filepath.Join(fx.Root, sp.Dir), Args: args, FailAfter: -1}
 	}
-	full := pool.Fresh(base("A", "E"))
-	if full.Err != "" || len(full.Out) == 0 {
-		fatalf("library leg: reference generation failed: %s", full.Err)
-	}
 	var reqs []GenReq
 	var desc []string
-	for b := 0; b <= len(full.Out); b++ {
-		r := base("A", "E")
-		r.FailAfter = b
-		reqs = append(reqs, r)
-		desc = append(desc, fmt.Sprintf("writer fails after %d of %d bytes", b, len(full.Out)))
+	var fulls [][]byte
+	var fullOf []int
+	for fi, fm := range []string{"", "noop", "goimports"} {
+		rq := base("A", "E")
+		rq.Formatter = fm
+		full := pool.Fresh(rq)
+		if full.Err != "" || len(full.Out) == 0 {
+			fatalf("library leg: reference generation failed: %s", full.Err)
+		}
+		fulls = append(fulls, full.Out)
+		step := 1
+		if fi > 0 {
+			step = 7 // every 7th position for the other two formatters (plus the ends)
+		}
+		for b := 0; b <= len(full.Out); b++ {
+			if b%step != 0 && b < len(full.Out)-2 {
+				continue
+			}
+			r := base("A", "E")
+			r.Formatter = fm
+			r.FailAfter = b
+			reqs = append(reqs, r)
+			fullOf = append(fullOf, fi)
+			desc = append(desc, fmt.Sprintf("-fmt %q, writer fails after %d of %d bytes", fm, b, len(full.Out)))
+		}
 	}
 	nWriter := len(reqs)
 	bad := [][]string{{"Nope"}, {"A", "Nope"}, {"Nope", "A"}, {"A", "E", "S"}, {"A", "S", "E"}, {"S", "A", "E"}, {"A", ""}, {"A:"}, {"A", "E:1x"}}
@@ -283,7 +303,8 @@ func e5Library(fx *Fixture, work string, rep *Report) {
 			return // C19's
 		}
 		if i < nWriter {
-			if i == len(full.Out) { // the writer accepts everything
+			full := struct{ Out []byte }{fulls[fullOf[i]]}
+			if reqs[i].FailAfter == len(full.Out) { // the writer accepts everything
 				if resp.Err != "" || !bytes.Equal(resp.Out, full.Out) {
 					viol("library: a writer that accepts the whole file did not receive exactly the file", resp.Err)
 				}
